@@ -2,11 +2,13 @@ import AdfObdd.Drv.Bdd
 import AdfObdd.Drv.Iter
 import AdfObdd.Persist
 import AdfObdd.AdfModel
+import AdfObdd.JsonModel
+import AdfObdd.Drv.Parser
 /-! protocol handler of the persistence family (C14).  One object (an `Adf`: ordering, diagram
     store, root handles) lives through a history of diagram operations and semantics computations;
     at any point it can be sent through one of the two round trips and then lives on.
 
-    pnew NV                    fresh object (names s0…), history #0 = ⊥, #1 = ⊤
+    pnew NV [xHEX …]           fresh object (names s0…, or the given labels: `x` + hex of UTF-8), history #0 = ⊥, #1 = ⊤
     pop <op>                   = handle   ~ truth table   ~ twin=1
     pac #a …                   the root handles (acceptance conditions), one per statement
     psem grounded|complete|stable   = vectors   ~ twin=1
@@ -16,6 +18,18 @@ import AdfObdd.AdfModel
     prebuildstream             the same from the node list WITHOUT the two constants (as streamed over a channel)
                                = T <node table> ac <handles> names <count>
                                ~ same-as-original nodes=1 ac=1 names=1 uniq=1 deps=1 cnt=1 memo-empty=1
+    pjson text HEX             (emitted by the harness after `pjson`) the text serde_json really wrote for the
+                               object; read with the verified reader `Json.parse`:
+                               = state names … map … nodes … ac … cache …   (maps sorted by value)
+                               ~ reprint=1 model=1   (`Json.print` of what was read, in the order read, is the
+                               text byte for byte; the state read is the model's own state)
+    pjson alt HEX              variations of that text (fields in another order, unknown fields, structs as arrays,
+                               escaped keys; repeated/missing fields, leading zeros, trailing commas, …): the REAL
+                               serde_json and `Json.parse` must agree:  = state …  |  = unreadable
+    pjson lean K               the model's state printed by `Json.render (wsp K) (Json.toks …)` (K = 0: maps ascending
+                               by value, no whitespace; otherwise descending with whitespace between the tokens);
+                               the harness assembles the same text and reads it with the REAL serde_json + fix_import
+                               = text HEX   = state …   = internal …   ~ same-as-original …   (the object lives on)
     pmemocheck NV EXC <table> uniq=… ite=… res=… cnt=… deps=…   ~ ok    (audit of the real tables)
     pfinish                    = <node table>   ~ <truth tables of all issued handles>
 
@@ -28,6 +42,7 @@ structure PersistSt where
   b : BddSt := {}
   ac : List Nat := []
   names : Nat := 0
+  labels : List String := []
 
 def sortedSet (xs : List Nat) : List Nat := sortDedup xs
 
@@ -38,7 +53,7 @@ def liveObject (s : Store) : PBdd :=
     cnt := (List.range s.nodes.size).foldl (fun c t => c.insert t (cntOf s t)) {} }
 
 /-- compare a round-tripped model object with the original, field by field, honestly -/
-def sameAsOriginal (orig : PBdd) (r : PBdd) : String :=
+def sameAsOriginal (orig : PBdd) (r : PBdd) (acOk : Bool := true) (namesOk : Bool := true) : String :=
   let n := orig.st.nodes.size
   let nodes := decide (r.st.nodes = orig.st.nodes)
   let uniq := r.st.uniq.size == orig.st.uniq.size &&
@@ -47,18 +62,54 @@ def sameAsOriginal (orig : PBdd) (r : PBdd) : String :=
     (List.range n).all (fun t => sortedSet (r.deps.getD t []) == sortedSet (orig.deps.getD t []))
   let cnt := r.cnt.size == n && (List.range n).all (fun t => r.cnt[t]? == orig.cnt[t]?)
   let memo := r.st.resC.isEmpty && r.st.iteC.isEmpty
-  s!"nodes={boolBit nodes} ac=1 names=1 uniq={boolBit uniq} deps={boolBit deps} cnt={boolBit cnt} memo-empty={boolBit memo}"
+  s!"nodes={boolBit nodes} ac={boolBit acOk} names={boolBit namesOk} uniq={boolBit uniq} deps={boolBit deps} cnt={boolBit cnt} memo-empty={boolBit memo}"
 
 /-- public (`nodes ac names deps cnt`, property channel) vs internal (`uniq memo-empty`,
 correspondence channel) fields of the same-as-original verdict -/
 def splitVerdict (pub : Bool) (v : String) : String :=
   joinWith " " ((v.splitOn " ").filter (fun w => (w.startsWith "uniq=" || w.startsWith "memo-empty=") != pub))
 
+/-! the text level (`Json`) -/
+
+def hexText (l : List Char) : String :=
+  String.ofList ((String.ofList l).toUTF8.toList.flatMap fun b => [Prs.hexNibble (b.toNat / 16), Prs.hexNibble (b.toNat % 16)])
+
+def xLabel (s : String) : String := "x" ++ hexText s.toList
+
+def unLabel (w : String) : Option String :=
+  if w.startsWith "x" then (Prs.unhexText (w.drop 1).toString).map String.ofList else none
+
+def orDashP (sep : String) (xs : List String) : String := if xs.isEmpty then "-" else joinWith sep xs
+
+def sortByVal {α : Type} (xs : List (α × Nat)) : List (α × Nat) := xs.mergeSort (fun a b => decide (a.2 ≤ b.2))
+
+/-- names, mapping (sorted by value), node table, ac, unique table (sorted by value) -/
+def canonState (e : Json.TextAdf) : String :=
+  let names := orDashP "," (e.names.map xLabel)
+  let map := orDashP "," ((sortByVal e.mapping).map fun kv => s!"{xLabel kv.1}:{kv.2}")
+  let cache := orDashP ";" ((sortByVal e.cache).map fun q => s!"{q.1.var},{q.1.lo},{q.1.hi}>{q.2}")
+  s!"names {names} map {map} nodes {dumpTable e.nodes.toArray} ac {orDashP "," (e.ac.map toString)} cache {cache}"
+
+/-- whitespace before token `i` in variant `k` -/
+def wsp (k : Nat) (i : Nat) : List Char :=
+  if k = 0 then [] else
+  match i % 6 with
+  | 0 => [' '] | 1 => [] | 2 => ['\n'] | 3 => ['\t', '\r', ' '] | 4 => [] | _ => [' ', ' ']
+
+/-- the model's own persisted state; the two maps ascending by value (k = 0) or descending -/
+def modelText (st : PersistSt) (k : Nat) : Json.TextAdf :=
+  let ord := fun {α : Type} (xs : List (α × Nat)) => if k = 0 then sortByVal xs else (sortByVal xs).reverse
+  { names := st.labels, mapping := ord st.labels.zipIdx, nodes := st.b.s.nodes.toList,
+    cache := ord st.b.s.uniq.toList, ac := st.ac }
+
 def persistStep (st : PersistSt) (l : String) (ws : List String) : Option (List String × PersistSt) :=
   match ws with
-  | ["pnew", nv] =>
+  | "pnew" :: nv :: lbs =>
     let nv := nv.toNat?.getD 0
-    some ([l], { b := BddSt.fresh nv false, ac := [], names := nv })
+    let labels := match lbs.mapM unLabel with
+      | some g => if g.length = nv then g else (List.range nv).map (fun i => s!"s{i}")
+      | none => (List.range nv).map (fun i => s!"s{i}")
+    some ([l], { b := BddSt.fresh nv false, ac := [], names := nv, labels := labels })
   | "pop" :: opws =>
     match bddOp st.b opws with
     | some (op, tt) =>
@@ -99,6 +150,31 @@ def persistStep (st : PersistSt) (l : String) (ws : List String) : Option (List 
     some ([l, s!"= T {dumpTable r.st.nodes} ac {showNats "," st.ac} names {st.names}",
            "= internal " ++ splitVerdict false (sameAsOriginal orig r),
            "~ same-as-original " ++ splitVerdict true (sameAsOriginal orig r)], { st with b := { st.b with s := r.st } })
+  | ["pjson", "text", hx] =>
+    match (Prs.unhexText hx).bind (fun t => (Json.parse t).map (fun e => (t, e))) with
+    | some (t, e) =>
+      let reprint := Json.print e == t
+      let model := canonState e == canonState (modelText st 0)
+      some ([l, s!"= state {canonState e}", s!"~ reprint={boolBit reprint} model={boolBit model}"], st)
+    | none => some ([l, "= unreadable"], st)
+  | ["pjson", "alt", hx] =>
+    match (Prs.unhexText hx).bind Json.parse with
+    | some e => some ([l, s!"= state {canonState e}"], st)
+    | none => some ([l, "= unreadable"], st)
+  | ["pjson", "lean", k] =>
+    let k := k.toNat?.getD 0
+    let m := modelText st k
+    let text := Json.render (wsp k) 0 (Json.toks m)
+    match Json.parse text with
+    | some e =>
+      let orig := liveObject st.b.s
+      let r := fixImport (importB ⟨e.nodes.toArray, e.cache⟩)
+      let namesOk := e.names == st.labels && sortByVal e.mapping == sortByVal st.labels.zipIdx
+      let v := sameAsOriginal orig r (e.ac == st.ac) namesOk
+      some ([l, "= text " ++ hexText text, s!"= state {canonState e}",
+             "= internal " ++ splitVerdict false v, "~ same-as-original " ++ splitVerdict true v],
+            { st with b := { st.b with s := r.st }, ac := e.ac })
+    | none => some ([l, "= text " ++ hexText text, "= unreadable"], st)
   | ["prebuild"] =>
     let orig := liveObject st.b.s
     let r := rebuildP orig.st.nodes
